@@ -18,13 +18,17 @@ from harness import coqio as q
 from harness.props import _rt_common as rt
 
 ID = "C27"
-COQ_REQUIRE = ["M_RepairOrch"]
-COQ_CASE_TYPE = "M_RepairOrch.case"
-COQ_CHECK = "M_RepairOrch.check_case"
+COQ_REQUIRE = ["M_Repair", "M_RepairOrch", "M_RepairOrch2"]
+COQ_CASE_TYPE = "M_RepairOrch2.case2"
+COQ_CHECK = "M_RepairOrch2.check_case2"
 OBLIGATIONS = ["repair_status_ok_iff", "repair_done_records_selection",
                "repair_done_ignored_unless_running", "repair_ok_every_orphan_selected",
                "rehost_only_replica_holders", "orphan_hosts_are_selectors",
-               "repair_ok_not_exactly_one_refuted"]
+               "repair_ok_not_exactly_one_refuted",
+               "setup_repair_never_fails", "agent_repair_dcop_zero_iff",
+               "repair_zero_hard_cost_iff_valid", "selections_exact", "repair_done_any_order",
+               "repair_reported_ok_iff", "repair_ok_never_lost", "rehost_directory_consistent",
+               "repair_valid_outcome_exactly_one", "reachable_keys_distinct"]
 RULE = ("20% real resilient thread-mode runs (4-6 variables, 4-6 agents, capacity 100000, mgm/dsa "
         "without stop condition, replication level k in 1..2, one removal event of 1..k agents, "
         "distributions oneagent/adhoc/random, switch interval 1e-5..5e-3 s); 80% crafted protocol "
@@ -136,8 +140,54 @@ def _gen_crafted(rng):
                 repair_only=rng.random() < 0.15, script=script)
 
 
+def _gen_repair(rng):
+    """one repair end to end without threads: the REAL removal helpers on a real Discovery, the
+    REAL ResilientAgent.setup_repair / _on_repair_computation_finished of every candidate agent
+    on a generated outcome of the repair DCOP, the REAL AgentsMgt on the resulting repair_done
+    messages and the REAL Directory on the resulting (un)publications in a shuffled order"""
+    nv, na = rng.randint(3, 6), rng.randint(3, 6)
+    agents = [rt.aname(i) for i in range(na)]
+    comps = [rt.vname(i) for i in range(nv)]
+    spec = rt.gen_dcop_spec(rng, nv, p_ternary=0.0, p_unary=0.0, p_hard=0.0, objective="min")
+    k = rng.randint(1, 2)
+    if rng.random() < 0.4:          # few hosts: several (often adjacent) orphans per event
+        pool = rng.sample(agents, 2)
+        hosts = {c: rng.choice(pool) for c in comps}
+    else:
+        hosts = {c: rng.choice(agents) for c in comps}
+    replicas = {c: sorted(rng.sample([a for a in agents if a != hosts[c]], min(k, na - 1)))
+                for c in comps}
+    used = sorted(set(hosts.values()))
+    leaving = sorted(rng.sample(used, min(len(used), rng.randint(1, k))))
+    if len(leaving) >= na - 1:
+        leaving = leaving[:1]
+    fp = {c: rng.randint(1, 9) for c in comps}
+    orphaned = [c for c in comps if hosts[c] in leaving]
+    x = {}
+    for c in orphaned:
+        cc = [a for a in replicas[c] if a not in leaving]
+        r = rng.random()
+        n_sel = 1 if r < 0.7 else (2 if r < 0.85 else 0)
+        chosen = rng.sample(cc, min(n_sel, len(cc)))
+        for a in cc:
+            x["%s|%s" % (c, a)] = 1 if a in chosen else 0
+    tight = rng.random() < 0.35      # remaining capacity of the same order as the footprints
+    slack = {a: (rng.randint(0, 14) if tight else 100000) for a in agents}
+    return dict(kind="repair", spec=spec, agents=agents, comps=comps, hosts=hosts, replicas=replicas,
+                leaving=leaving, fp=fp, x=x, slack=slack, repair_only=rng.random() < 0.1,
+                shuffle=rng.randrange(1 << 30))
+
+
 def gen(rng, n, tier):
-    return [_gen_real(rng) if i % 5 == 0 else _gen_crafted(rng) for i in range(n)]
+    out = []
+    for i in range(n):
+        if i % 5 == 0:
+            out.append(_gen_real(rng))
+        elif i % 5 in (1, 2):
+            out.append(_gen_repair(rng))
+        else:
+            out.append(_gen_crafted(rng))
+    return out
 
 
 # ------------------------------------------------------------------ real driver
@@ -384,9 +434,199 @@ def _crafted_isolated(case):
         shutil.rmtree(d, ignore_errors=True)
 
 
+class _StopAfterReport(Exception):
+    pass
+
+
+def _repair(case):
+    rt.quiet()
+    import random as _random
+    from pydcop.algorithms import ComputationDef
+    from pydcop.infrastructure import agents as ag
+    from pydcop.infrastructure.agents import ResilientAgent
+    from pydcop.infrastructure.communication import InProcessCommunicationLayer
+    from pydcop.infrastructure.computations import build_computation
+    from pydcop.infrastructure.discovery import Discovery, Directory, PublishComputationMessage, \
+        UnPublishComputationMessage
+    from pydcop.dcop.objects import AgentDef
+    from pydcop.reparation import removal as R
+    _random.seed(case["shuffle"])
+    rnd = _random.Random(case["shuffle"])
+    leaving = list(case["leaving"])
+    dcop = rt.build_dcop(case["spec"], len(case["agents"]))
+    algo, cg, _ = rt.build_runtime(dcop, "dsa", "random", rng_seed=1)
+    defs = {n.name: ComputationDef(n, algo) for n in cg.nodes}
+    # --- the orchestrator's Discovery at the time of the event
+    d = Discovery("orchestrator", "addr_orch")
+    for a in case["agents"]:
+        d.register_agent(a, "addr_" + a, publish=False)
+    for c in case["comps"]:
+        d.register_computation(c, case["hosts"][c], publish=False)
+        for a in case["replicas"][c]:
+            d.register_replica(c, a, publish=False)
+    names = [c for c in d.computations(include_technical=True) if c in case["hosts"]]
+    out = dict(view=dict(comps=[[c, d.computation_agent(c)] for c in names],
+                         replicas=[[c, sorted(d.replica_agents(c))] for c in names]),
+               graph=[[n.name, list(n.neighbors)] for n in cg.nodes])
+    orphaned = list(R._removal_orphaned_computations(leaving, d))
+    cands = list(R._removal_candidate_agents(leaving, d))
+    out["orphaned"], out["cands"] = orphaned, cands
+    x = {tuple(k.split("|")): v for k, v in case["x"].items()}
+    # --- every candidate agent
+    calls = []
+    orig_h, orig_c = ag.create_computation_hosted_constraint, ag.create_agent_capacity_constraint
+
+    def hosted(comp, bin_vars):
+        r = orig_h(comp, bin_vars)
+        calls.append(["hosted", comp, [[list(k), v.name] for k, v in bin_vars.items()], r])
+        return r
+
+    def capacity(agt, remaining, fpf, bin_vars):
+        r = orig_c(agt, remaining, fpf, bin_vars)
+        calls.append(["capacity", agt, remaining, [[list(k), v.name] for k, v in bin_vars.items()], r])
+        return r
+    ag.create_computation_hosted_constraint, ag.create_agent_capacity_constraint = hosted, capacity
+    obs = []
+    try:
+        for a in cands:
+            info = R._removal_candidate_agt_info(a, leaving, cg, d)
+            own = [c for c in case["comps"] if case["hosts"][c] == a]
+            own_comps = [build_computation(defs[c]) for c in own]
+            used = sum(c.footprint() for c in own_comps)
+            agent = ResilientAgent(a, InProcessCommunicationLayer(),
+                                   AgentDef(a, capacity=used + case["slack"][a]),
+                                   "dist_ucs_hostingcosts")
+            for c in own_comps:
+                agent.add_computation(c)
+            for c in case["comps"]:
+                if a in case["replicas"][c]:
+                    agent.replication_comp.replicas[c] = defs[c]
+                    agent.replication_comp._hosted_replicas[c] = (case["hosts"][c], case["fp"][c])
+            del calls[:]
+            cbv = agent.setup_repair(info)
+            o = dict(agent=a, info=[[c, sorted(i[0])] for c, i in info.items()],
+                     used=used,
+                     cbv=[[list(k), v.name] for k, v in cbv.items()], hosted=[], capacity=None)
+            for call in calls:
+                rel = call[-1]
+                if call[0] == "hosted":
+                    items = sorted(call[2])
+                    asg = {n: x.get(tuple(k), 0) for k, n in items}
+                    o["hosted"].append([call[1], [k for k, _ in items], [n for _, n in items],
+                                        [v.name for v in rel.dimensions] == [n for _, n in call[2]],
+                                        _intval(rel(**asg))])
+                else:
+                    asg = {n: x.get(tuple(k), 0) for k, n in call[3]}
+                    o["capacity"] = [call[2], [k for k, _ in call[3]], [v.name for v in rel.dimensions],
+                                     _intval(rel(**asg))]
+            reported = []
+
+            def on_done(sel, metrics=None, _r=reported):
+                _r.append(list(sel))
+                raise _StopAfterReport()
+            agent._on_repair_done = on_done
+            before = set(c.name for c in agent.computations())
+            for name, reg in list(agent._repair_computations.items()):
+                reg.computation.value_selection(x.get((reg.candidate, a), 0), 0)
+            for name in list(agent._repair_computations):
+                try:
+                    agent._on_repair_computation_finished(name)
+                except _StopAfterReport:
+                    pass
+            o["reported"] = reported
+            o["deployed"] = sorted(c.name for c in agent.computations()
+                                   if c.name not in before and not c.name.startswith("B"))
+            obs.append(o)
+    finally:
+        ag.create_computation_hosted_constraint, ag.create_agent_capacity_constraint = orig_h, orig_c
+    out["agents"] = obs
+    sel = {o["agent"]: (o["reported"][0] if len(o["reported"]) == 1 else None) for o in obs}
+    # --- the orchestrator on the resulting messages
+    if orphaned and all(v is not None for v in sel.values()):
+        msgs = [["ready", a] for a in cands]
+        rnd.shuffle(msgs)
+        dones = [["done", a, sel[a]] for a in cands]
+        rnd.shuffle(dones)
+        sub = dict(kind="crafted", agents=case["agents"], comps=case["comps"], hosts=case["hosts"],
+                   replicas=case["replicas"], repair_only=case["repair_only"],
+                   script=[["run"], ["event", leaving]] + msgs + dones)
+        out["orch_case"] = sub
+        out["orch"] = _crafted(sub)
+    # --- the directory on the resulting (un)publications, in a shuffled order
+    dd = Discovery("orchestrator", "addr_orch")
+    directory = Directory(dd)
+    for a in case["agents"]:
+        directory.register_agent(a, "addr_" + a)
+    for c in case["comps"]:
+        directory.register_computation(c, case["hosts"][c], "addr_" + case["hosts"][c])
+    init = [[c, a] for c, a in directory._computations_data.items()]
+    ops = [["unreg", c, case["hosts"][c]] for c in case["comps"] if case["hosts"][c] in leaving]
+    for o in obs:
+        for c in o["deployed"]:
+            ops.append(["reg", c, o["agent"]])
+        for k, n in o["cbv"]:            # the repair computations come and go as well
+            ops.append(["reg", n, o["agent"]])
+    rnd.shuffle(ops)
+    for o in obs:
+        for k, n in o["cbv"]:
+            ops.insert(rnd.randrange(len(ops) + 1), ["unreg", n, rnd.choice([None, o["agent"]])])
+    dc = directory.directory_computation
+    for op in ops:
+        if op[0] == "reg":
+            dc._on_publish_computation("_discovery_" + op[2],
+                                       PublishComputationMessage(op[1], op[2], "addr_" + op[2]))
+        else:
+            dc._on_unpublish_computation("_discovery_x", UnPublishComputationMessage(op[1], op[2]))
+    out["dir"] = dict(init=init, ops=ops, final=[[c, a] for c, a in directory._computations_data.items()],
+                      disc={c: _agent_of(dd, c) for c in case["comps"]})
+    return out
+
+
+def _agent_of(d, c):
+    try:
+        return d.computation_agent(c)
+    except Exception:
+        return None
+
+
+def _intval(v):
+    if isinstance(v, bool) or v != int(v):
+        raise ValueError("non integral constraint value %r" % (v,))
+    return int(v)
+
+
+def _repair_isolated(case):
+    import os
+    import shutil
+    from pydcop.infrastructure import orchestrator as om
+    M = om.AgentsMgt
+    saved = (M.on_message, M._send_mgt_msg, M._cb_agent_registration, M._cb_computation_registration)
+    d = os.path.join(rt.WORK, "r%d" % os.getpid())
+    os.makedirs(d, exist_ok=True)
+    old = os.getcwd()
+    os.chdir(d)
+    devnull = open(os.devnull, "w")
+    import sys
+    so = sys.stdout
+    sys.stdout = devnull                 # _on_repair_computation_finished prints metrics
+    try:
+        return _repair(case)
+    except Exception as e:
+        import traceback
+        return {"error": type(e).__name__, "detail": str(e)[:300], "tb": traceback.format_exc()[-800:]}
+    finally:
+        sys.stdout = so
+        devnull.close()
+        M.on_message, M._send_mgt_msg, M._cb_agent_registration, M._cb_computation_registration = saved
+        os.chdir(old)
+        shutil.rmtree(d, ignore_errors=True)
+
+
 def run_impl(case):
     if case["kind"] == "real":
         return rt.run_isolated(_real, case, hard_timeout=RUN_TIMEOUT + 60)
+    if case["kind"] == "repair":
+        return _repair_isolated(case)
     return _crafted_isolated(case)
 
 
